@@ -5,6 +5,7 @@ import (
 	"fmt"
 	"os"
 	"path/filepath"
+	"reflect"
 	"sort"
 	"strings"
 	"testing"
@@ -27,10 +28,96 @@ const foreignDoc = `<?xml version="1.0" encoding="UTF-8"?>
 <bpmn:process id="Foreign_Proc" isExecutable="false" processType="Public" isClosed="true"><bpmn:task id="Foreign_Task" name="ft" startQuantity="7" completionQuantity="3" isForCompensation="true"/></bpmn:process>
 </bpmn:definitions>`
 
+// untypeItems turns a parsed model into what a caller builds in code: olive
+// items (headers, properties, result fields) without an explicit type - the
+// parser fills in "string", code that assembles a model usually does not.
+// Returns the number of items edited.
+func untypeItems(m *schema.Definitions) int {
+	n := 0
+	var walk func(v reflect.Value, depth int)
+	walk = func(v reflect.Value, depth int) {
+		if depth > 200 || !v.IsValid() {
+			return
+		}
+		switch v.Kind() {
+		case reflect.Pointer:
+			if v.IsNil() {
+				return
+			}
+			if it, ok := v.Interface().(*schema.Item); ok {
+				if it.Type == schema.ItemTypeString {
+					it.Type = ""
+					n++
+				}
+				return
+			}
+			walk(v.Elem(), depth+1)
+		case reflect.Interface:
+			if !v.IsNil() {
+				walk(v.Elem(), depth+1)
+			}
+		case reflect.Struct:
+			for i := 0; i < v.NumField(); i++ {
+				if v.Type().Field(i).IsExported() {
+					walk(v.Field(i), depth+1)
+				}
+			}
+		case reflect.Slice:
+			for i := 0; i < v.Len(); i++ {
+				walk(v.Index(i), depth+1)
+			}
+		}
+	}
+	walk(reflect.ValueOf(m), 0)
+	return n
+}
+
+// editedModel: serialising a model that was assembled / edited in code must
+// not alter it either, and serialising it twice gives the same document.
+func editedModel(x []byte) (sym, det string, edited int) {
+	m, err := schema.Parse(x)
+	if err != nil {
+		return "", "", 0
+	}
+	ref, _ := schema.Parse(x)
+	edited = untypeItems(m)
+	untypeItems(ref)
+	if edited == 0 {
+		return "", "", 0
+	}
+	a, err := xml.Marshal(m)
+	if err != nil {
+		return "marshal", err.Error(), edited
+	}
+	if d := equiv(m, ref); len(d) > 0 {
+		return "model-altered", "serialising changed a model whose olive items carry no explicit type: " + strings.Join(d, "; "), edited
+	}
+	b, err := xml.Marshal(m)
+	if err != nil {
+		return "marshal", err.Error(), edited
+	}
+	if string(a) != string(b) {
+		return "model-altered", "serialising the same model twice gives different documents", edited
+	}
+	// the document written for the untyped items reads back as the typed original
+	back, err := schema.Parse(a)
+	if err != nil {
+		return "reparse", err.Error(), edited
+	}
+	orig, _ := schema.Parse(x)
+	if d := equiv(back, orig); len(d) > 0 {
+		return "not-equivalent", "a model with untyped olive items does not read back as the model with the default type: " + strings.Join(d, "; "), edited
+	}
+	return "", "", edited
+}
+
 func roundTrip(x []byte) (sym, det string, m1, m2 *schema.Definitions) {
 	m1, err := schema.Parse(x)
 	if err != nil {
 		return "unparsable", err.Error(), nil, nil
+	}
+	if s, d, _ := editedModel(x); s != "" {
+		return s, d, m1, nil
 	}
 	ref, _ := schema.Parse(x) // untouched second parse
 	x2, err := xml.Marshal(m1)
